@@ -120,6 +120,13 @@ def run(res, tier, seed, shard, nshards):
             for nxt in ("C1", "C0", "T1", "B1", "T0", "B0", "PING"):
                 for name in ("recv_data_frame", "recv_data", "recv"):
                     cases.append(("after-payload-rejection", nfrag, bad, nxt, name))
+    # (c'') sequencing after the client's own send_close() in the middle of a message of the server: the server may finish it (and send
+    # more), a new data frame inside it is still forbidden
+    for pf in (False, True):
+        for first in ("T0", "B0"):
+            for mid in ((), ("PING",), ("C0",), ("C0", "PONG")):
+                for nxt in ("C1", "C0", "T1", "B0", "PING"):
+                    cases.append(("half-closed-seq", pf, first, mid, nxt))
     # (d) random longer sequences
     for i in range(300 if tier == "quick" else 6000):
         cases.append(("rseq", i))
@@ -133,6 +140,8 @@ def run(res, tier, seed, shard, nshards):
             elif c[0] in ("close", "close1"):
                 W.enableTrace(False)
                 close_case(res, W, rng, c)
+            elif c[0] == "half-closed-seq":
+                half_closed_seq_case(res, W, rng, c)
             elif c[0] == "after-payload-rejection":
                 after_payload_rejection_case(res, W, rng, c)
             elif c[0] == "seq":
@@ -187,6 +196,53 @@ def close_case(res, W, rng, c):
     res.count("close_class:" + cls)
     for name in (("recv_data_frame", "recv") if code % 3 == 0 or kind == "close1" else ("recv_data_frame",)):
         judge(res, W, stream, [(name, True)], (kind, code, rk, name), frame_under_test=(0, f))
+    # per-fragment delivery changes how data frames are handed over, not what a close frame may carry
+    if code % 2 == 0 or code in (1001, 1011, 4999) or kind == "close1":
+        judge(res, W, stream, [("recv_data_frame", True)], (kind + "-pf", code, rk, "recv_data_frame"), frame_under_test=(0, f), ws_kwargs={"fire_cont_frame": True})
+
+
+def half_closed_seq_case(res, W, rng, c):
+    _, pf, first, mid, nxt = c
+    w, conn, peer = H.connected_ws(timeout=1, ws_kwargs={"fire_cont_frame": True} if pf else None)
+    case = {"gen": "half-closed-seq", "per_fragment": pf, "first": first, "mid": mid, "next": nxt}
+    res.case(("hcs", pf, first, mid, nxt), nontrivial=True)
+    # the server's message is under way: in per-fragment mode the application has seen the first fragment, otherwise a receive call
+    # timed out in the middle of the message
+    conn.deliver(kind_frame(first, 0))
+    try:
+        w.recv_data_frame(True)
+    except W.WebSocketTimeoutException:
+        pass
+    except Exception as e:  # noqa
+        res.violation("legal-rejected", f"first fragment {first} (per-fragment={pf}): {type(e).__name__}: {e}", case, gen="half-closed-seq", next=nxt)
+        return
+    try:
+        w.send_close(1000, b"leaving")
+    except Exception as e:  # noqa
+        res.violation("legal-rejected", f"send_close() in the middle of a server message: {type(e).__name__}: {e}", case, gen="half-closed-seq", next=nxt)
+        return
+    seq = list(mid) + [nxt]
+    conn.deliver(b"".join(kind_frame(k, i + 1) for i, k in enumerate(seq)) + (kind_frame("C1", 9) if nxt in ("C0", "PING") else b""))
+    res.count("half_closed_seq_cases")
+    legal = nxt in ("C1", "C0", "PING")
+    res.count("must_accept_seen" if legal else "must_reject_seen")
+    exc = None
+    for _ in range(len(seq) + 3):
+        try:
+            w.recv_data_frame(True)
+        except W.WebSocketTimeoutException:
+            break
+        except Exception as e:  # noqa
+            exc = e
+            break
+    if legal:
+        if exc is not None:
+            res.violation("legal-rejected", f"after send_close() in the middle of a server message ({first}, then {seq}, per-fragment={pf}) the legal frames raised "
+                          f"{type(exc).__name__}: {exc}", case, gen="half-closed-seq", next=nxt)
+    else:
+        if not isinstance(exc, W.WebSocketProtocolException):
+            res.violation("illegal-accepted", f"after send_close() in the middle of a server message ({first}, then {seq}, per-fragment={pf}) a new data frame inside the "
+                          f"unfinished message was not refused (got {type(exc).__name__ if exc else 'no exception'})", case, gen="half-closed-seq", next=nxt)
 
 
 def after_payload_rejection_case(res, W, rng, c):
